@@ -266,7 +266,9 @@ func runStartup(r *Rng, n int, bin string, w io.Writer, stats map[string]int) {
 	defer os.RemoveAll(dir)
 	spoil := []func(o *controller.NodeGroupOptions){
 		func(o *controller.NodeGroupOptions) { o.MinNodes, o.MaxNodes = 5, 2 },
-		func(o *controller.NodeGroupOptions) { o.TaintLowerCapacityThresholdPercent = o.TaintUpperCapacityThresholdPercent },
+		func(o *controller.NodeGroupOptions) {
+			o.TaintLowerCapacityThresholdPercent = o.TaintUpperCapacityThresholdPercent
+		},
 		func(o *controller.NodeGroupOptions) { o.SlowNodeRemovalRate, o.FastNodeRemovalRate = 3, 1 },
 		func(o *controller.NodeGroupOptions) { o.SoftDeleteGracePeriod, o.HardDeleteGracePeriod = "10m", "1m" },
 		func(o *controller.NodeGroupOptions) { o.ScaleUpCoolDownPeriod = "0" },
